@@ -172,7 +172,9 @@ fn inline_type<'a>(input: &mut &'a [u8]) -> ModalResult<Type<'a>, InputError<&'a
     }
     if let Some(pos) = input.iter().position(|&b| b == b')') {
         let content = &input[1..pos]; // Skip opening paren
-        if content.contains(&b':') {
+
+        // An empty list is a struct without fields; an enum needs at least one variant.
+        if content.contains(&b':') || content.iter().all(u8::is_ascii_whitespace) {
             struct_type(input)
         } else {
             enum_type(input)
